@@ -2,11 +2,11 @@
    collections.py: values, the defunctionalised lambda family, and every
    collection function as a total function over lists.  No proofs here.
 
-   Values: null, booleans, integers and (nested) sequences.  A sequence carries
-   a flag telling whether the Python object is a mutable `list` (enumerate's
-   pairs, groupBy's value lists, list.insert's copy) or a `tuple`: Python never
-   equates a list with a tuple and lists are unhashable, both of which are
-   visible through indexOf/distinct/groupBy/toSet. *)
+   Values: null, booleans, integers, strings, (nested) sequences and dicts.  A sequence / dict carries a flag telling
+   whether the Python object is a mutable `list` / `dict` or yaql's `tuple` / FrozenDict: Python never equates a list
+   with a tuple and lists and dicts are unhashable, both of which are visible through indexOf/distinct/groupBy/toSet.
+   Since the repairs F25 (b83548a) and F26 (6c8b3da) no function of the two modules produces the mutable kinds any
+   more (theorem C13_collection_kinds; the raw-kind census of the correspondence checks it on the code). *)
 From Coq Require Import List ZArith Bool Arith Lia.
 From YV Require Import Common.Corr.
 Import ListNotations.
